@@ -99,27 +99,32 @@ func (s *sortedSet[ElementType, WeightType]) LightestElement() ReadableVariable[
 // addSorted adds the given element to the sortedElements slice.
 func (s *sortedSet[ElementType, WeightType]) addSorted(element ElementType) {
 	s.mutex.Lock()
-	defer s.mutex.Unlock()
-
-	if listElement, created := s.elements.GetOrCreate(element, func() *sortedSetElement[ElementType, WeightType] {
+	listElement, created := s.elements.GetOrCreate(element, func() *sortedSetElement[ElementType, WeightType] {
 		return newSortedSetElement(element, s)
-	}); created {
-		listElement.unsubscribeFromWeightUpdates = s.weightVariable(element).OnUpdate(func(_ WeightType, newWeight WeightType) {
-			// only lock if this is not the initial update
-			if listElement.unsubscribeFromWeightUpdates != nil {
-				s.mutex.Lock()
-				defer s.mutex.Unlock()
+	})
+	s.mutex.Unlock()
 
-				// the element may have been deleted while this update was waiting for the mutex
-				if listElement.removed {
-					return
-				}
+	if created {
+		// The subscription happens without holding the mutex, so that every weight update (the initial one included)
+		// can take it. Telling the initial update apart by looking at unsubscribeFromWeightUpdates was a data race
+		// with updates coming from other goroutines (they could see nil and modify the set without the mutex).
+		unsubscribeFromWeightUpdates := s.weightVariable(element).OnUpdate(func(_ WeightType, newWeight WeightType) {
+			s.mutex.Lock()
+			defer s.mutex.Unlock()
+
+			// the element may have been deleted while this update was waiting for the mutex
+			if listElement.removed {
+				return
 			}
 
 			listElement.weight = newWeight
 
 			s.updatePosition(listElement)
 		}, true)
+
+		s.mutex.Lock()
+		listElement.unsubscribeFromWeightUpdates = unsubscribeFromWeightUpdates
+		s.mutex.Unlock()
 	}
 }
 
